@@ -12,6 +12,7 @@ Local Open Scope string_scope.
 Definition known_sites : list ((string * string * string * string) * string) :=
   [(("annotator.py", "find_pairs", "for", "kdtree.query_pairs(HYDROGEN_BOND_MAX_DISTANCE)"), "unseeded: pairs of ints");
    (("annotator.py", "find_stackings", "for", "kdtree.query_pairs(STACKING_MAX_DISTANCE)"), "unseeded: pairs of ints; result sorted");
+   (("clashfinder.py", "find_clashes", "for", "kdtree.query_pairs(2.0 * max_radius + molprobity_factor)"), "unseeded: pairs of ints");
    (("common.py", "BpSeq.all_dot_brackets", "for", "graph[current]"), "unseeded: ints");
    (("common.py", "BpSeq.all_dot_brackets", "itertools.product", "unique"), "unseeded frozensets of int pairs; result collected into a set and sorted");
    (("common.py", "BpSeq.all_dot_brackets", "sorted(order-insensitive)", "solutions"), "sorted by structure string (total on distinct members)");
